@@ -209,6 +209,18 @@ struct Machine {
 		std::vector<long> e(static_cast<std::size_t>(D));
 		unsigned z = x | (y << 8U);
 		for(int k = 0; k < D; ++k) { e[static_cast<std::size_t>(k)] = kMExt[(z >> (3*k)) & 7U]; }
+		if constexpr(D >= 2) {
+			// one time in four: the extents of an existing array with the dimensions rotated or folded into the first one, i.e. the same number of elements in
+			// another shape (the state in which "reuse the storage if the size matches" shortcuts go wrong)
+			if(((z >> 14U) & 3U) == 3U) {
+				auto const& o = model[(z >> 12U) & 3U].ext;
+				long n = 1; for(long v : o) { n *= v; }
+				if(n > 1) {
+					if((z & 1U) != 0) { for(int k = 0; k < D; ++k) { e[static_cast<std::size_t>(k)] = o[static_cast<std::size_t>((k + 1) % D)]; } }
+					else { e.assign(static_cast<std::size_t>(D), 1); e[(z >> 1U) % static_cast<unsigned>(D)] = n; }
+				}
+			}
+		}
 		return e;
 	}
 	// new extents = old +- small deltas per dimension (growing, shrinking, mixed, to/from empty)
